@@ -10,6 +10,7 @@ constants, integer literals dec/0x/0b with sign, as statement, default and insid
 binary.  Multi-byte neighbours: all ordered pairs over an adversarial byte set in match, assignment and default.
 """
 import itertools
+import re
 import json
 from nv.framework import Check, pmap, sha, harness_fail
 from nv import loader, cbuild
@@ -362,8 +363,60 @@ def int_case(_):
     return res
 
 
+def strip_addresses(t):
+    # comments quote object reprs: addresses differ from run to run, and the module is called __main__ when run as a script
+    return re.sub(r" at 0x[0-9a-f]+", " at 0x", (t or "").replace("<__main__.", "<nmfu."))
+
+
+CLI_PROGRAMS = [
+    # raw control characters inside literals and outside them (indentation); CR LF line ends; a comment with a tab
+    ("raw-tab", 'out str[12] s; out int n = 0; hook h;\nparser {\n\t"k\tv";\t// a\ttab\n\ts = "x\t\ty";\n\tn = \'\t\';\n\th();\n\t/a\tb/;\n\t"q\t"i;\n}\n'),
+    ("crlf", 'out str[8] s; hook h;\r\nparser {\r\n  "ab";\r\n  s = "c d";\r\n  h();\r\n}\r\n'),
+    ("formfeed-vtab", 'out str[8] s; hook h;\nparser {\n  "a\x0bb";\n  s = "\x0c";\n  h();\n}\n'),
+    ("no-final-newline", 'out int n = 0;\nparser { "a"; n = 010; "b"; }'),
+    ("high-bytes", 'out str[8] s; hook h;\nparser { "\\xe9\\xff"; s = "\\x80"; h(); "caf\\xe9"i; }\n'),
+]
+
+
+def cli_case(item):
+    """what the real command line emits for a file is what the in-process pipeline (which every other check uses) emits for the same text"""
+    label, src, argv = item
+    res = dict(n=1, problems=[], src=src, which="cli", form=label)
+    acc = loader.compile_source(src, argv, timeout=120)
+    rc, h, c, tail = loader.compile_cli(src, argv)
+    if acc.kind == "accepted":
+        if rc != 0 or h is None or c is None:
+            res["problems"].append("command line exits %s (%s) for a program the pipeline accepts" % (rc, tail.strip()[-200:]))
+        elif strip_addresses(h) != strip_addresses(acc.header) or strip_addresses(c) != strip_addresses(acc.source):
+            # the text may legitimately differ in state numbering and branch order (set iteration order): compare what the two programs do on every
+            # string <= 4 over the bytes the source mentions (whole and byte by byte), hooks and outputs included
+            reps = sorted(set(src.encode("utf-8", "replace")[:400]) & set(range(256)) | {0, 9, 32, 255})[:14]
+            eof = "-feof-support" in argv
+            ds = []
+            for hh, cc in ((acc.header, acc.source), (h, c)):
+                o = loader.Accepted(acc.dctx, hh, cc, acc.name)
+                try:
+                    with cbuild.CProg(o, "gcc") as cp:
+                        script = cp.op_exhaust(4, reps, do_end=eof, digest=True, no_offsets=True) + cp.op_exhaust(3, reps, do_end=eof, digest=True, bytewise=True, no_offsets=True)
+                        recs, status = cp.run(script, timeout=120)
+                        ds.append(repr([r[1]["digests"] for r in recs]) if status == "ok" else "run:" + status)
+                        res["n"] += sum(len(reps) ** k for k in range(5))
+                except cbuild.BuildError as e:
+                    ds.append("cbuild_failed: " + str(e)[:200])
+            if ds[0] != ds[1]:
+                res["problems"].append("command line emits code that behaves differently from the pipeline's on the same text (some string <= 4 over %s): %s" % (bytes(reps), "build/run: %s | %s" % (ds[0][:80], ds[1][:80]) if "cbuild" in ds[0] + ds[1] or "run:" in ds[0] + ds[1] else "trace digests differ"))
+    elif acc.kind in ("diagnosed", "syntax", "argerror"):
+        if rc == 0:
+            res["problems"].append("command line accepts a program the pipeline rejects (%s)" % acc.kind)
+        elif "Traceback" in tail:
+            res["problems"].append("command line dies with a traceback: %s" % tail.strip()[-200:])
+    return res
+
+
 def dispatch(item):
     k = item[0]
+    if k == "cli":
+        return cli_case(item[1])
     if k == "match":
         return match_case(item[1])
     if k == "pair":
@@ -390,6 +443,12 @@ def run(tier, seed):
     items.append(("pairstore", "assign"))
     items.append(("pairstore", "default"))
     items.append(("int", None))
+    from nv import progs
+    for label, src in CLI_PROGRAMS:
+        for argv in ([], ["-O3"], ["-O0", "-fstrings-as-u8"]):
+            items.append(("cli", (label, src, argv)))
+    for p_ in progs.features():
+        items.append(("cli", (p_["label"], p_["src"], p_["argv"])))
     items.sort(key=lambda it: 0 if it[0] in ("store", "pairstore", "int") else 1)      # the heavy (C build) items first
     stats = dict(items=len(items))
     for idx, r in pmap(dispatch, items, timeout=900, chunksize=4, stop=ck.enough):
